@@ -39,7 +39,10 @@ def run(ctx, rep):
     rep.analysed["functions reachable from add_content / validate / grammar actions"] = len(reach)
     canned = lambda p: p.startswith("rules::aidl::__action") and p.split("::{closure")[0] not in user_acts   # closures of user actions are user code
     ss = panics.sites(facts, reach, skip=canned)
-    rep.floor("A8", "potential panic sites in user code", len(ss), 20)
+    # floors on what cannot disappear while the code still does its job (a global count would make removing a panic site an alarm)
+    rep.floor("A8", "potential panic sites in user code", len(ss), 10)
+    rep.floor("A8", "line/column lookups (panic on an offset that is not a character boundary)", len([x for x in ss if x["kind"] == "lookup"]), 1)
+    rep.floor("A8", "checked arithmetic / slicing sites of the doc-comment scanner", len([x for x in ss if x["fn"].startswith("javadoc::")]), 4)
     obls, stats = wiring.analyse(ctx)
 
     def all_ok(aspect):
